@@ -71,13 +71,25 @@ func c32(c *hx.Ctx) {
 	// intersection
 	for i := 0; i < c.N-nSid; i++ {
 		width := 1 + c.Rng.Intn(3) // short hashes make collisions/duplicates frequent
+		alpha := 3
+		shape := c.Rng.Intn(6) // 0-2 both short, 3 l long, 4 r long, 5 both long
+		if shape >= 3 {
+			width, alpha = 3, 4
+		}
+		side := 0
 		mk := func() [][]byte {
+			side++
 			n := c.Rng.Intn(9)
+			if shape == 5 || (shape == 3 && side == 1) || (shape == 4 && side == 2) {
+				n = 9 + c.Rng.Intn(40)
+			} else if shape >= 3 {
+				n = c.Rng.Intn(4)
+			}
 			l := make([][]byte, n)
 			for j := range l {
 				h := make([]byte, width)
 				for k := range h {
-					h[k] = byte(c.Rng.Intn(3))
+					h[k] = byte(c.Rng.Intn(alpha))
 				}
 				if c.Rng.Intn(6) == 0 {
 					h = h[:c.Rng.Intn(width+1)]
@@ -92,7 +104,7 @@ func c32(c *hx.Ctx) {
 		m := link_solicit.FindMatchingHashes(l, r)
 		desc := map[string]any{"kind": "match", "l": hexes(l), "r": hexes(r), "got": hexes(m)}
 		c.Case(hx.App("Match", hx.BytesList(l), hx.BytesList(r), hx.BytesList(m)), desc)
-		c.Class("match")
+		c.Class([]string{"match-short", "match-short", "match-short", "match-l-long", "match-r-long", "match-both-long"}[shape])
 		if len(m) > 0 {
 			c.Nontrivial("m" + hx.BytesList(l) + "/" + hx.BytesList(r))
 		}
